@@ -89,6 +89,7 @@ def run(ctx):
     f_sef = ctx.anchor("Line._set_existing_field",
                        seg.find_method("_set_existing_field"))
     f_get = ctx.anchor("Line.get", seg.find_method("get"))
+    f_set = ctx.anchor("Line.set", seg.find_method("set"))
     f_vf = ctx.anchor("Line.validate_field", seg.find_method("validate_field"))
 
     class VH(LineHooks):
@@ -133,6 +134,29 @@ def run(ctx):
             ctx.violation(R, f_sef.short, "vlevel=%d,no datatype on record"
                           % vl, "validations %r, stored %r, outcome %r" % (
                               vals, ln.attrs["_data"].get("xx"), out[0:2]))
+        # ... and so is a tag that does not exist yet, created with set()
+        ctx.instance(R)
+
+        class VH1(VH0):
+            def before_inline(self, ev, func, args, kwargs):
+                if func.name == "_define_field_methods":
+                    return None
+                if func.name == "_is_valid_custom_tagname":
+                    return True
+                return super().before_inline(ev, func, args, kwargs)
+        ln = Abs(seg, label="line", vlevel=vl, _gfa=None, _data={},
+                 _datatype={}, _virtual=False, virtual=False)
+        out = eval_function(repo, f_set, [ln, "xx", 7], hooks=VH1(repo))
+        vals = [e for e in out[2] if e[0] == "validate"]
+        ok = out[0] == "return" and ln.attrs["_data"].get("xx") == 7 and \
+            ln.attrs["_datatype"].get("xx") == "i" and \
+            (vals == [("validate", 7, "i")] if vl >= 3 else vals == [])
+        ctx.oblige(ok)
+        if not ok:
+            ctx.violation(R, f_set.short, "vlevel=%d,new tag" % vl,
+                          "validations %r, stored %r, datatype %r, outcome "
+                          "%r" % (vals, ln.attrs["_data"].get("xx"),
+                                  ln.attrs["_datatype"].get("xx"), out[0:2]))
         for stored, dt in ((5, "i"), ("text", "Z"), ("12", "i")):
             ctx.instance(R)
             ln = Abs(seg, label="line", vlevel=vl, _data={"xx": stored},
